@@ -698,7 +698,7 @@ META = {
              'every configuration field read on the compute path must be part of the cache file name; cache writer and reader agree on field count, '
              'separators and types and the cache is written atomically; per-record flags are re-initialised per VCF record, the conversion filter '
              'inspects the carried bases, a site is stored iff used and not bad. Does NOT decide the informative-site rules against a VCF at runtime.'),
-    'technique': 'static analysis: call-graph single-source check, snapshot/redefinition path analysis, field read-set vs cache-key provenance, string-shape agreement, dominator check of per-iteration flag initialisation',
+    'technique': 'static analysis: call-graph single-source check, snapshot/redefinition path analysis, field read-set vs cache-key provenance, string-shape agreement, dominator check of per-iteration flag initialisation; decision table of the cache reader region filter',
     'design_ref': 'DESIGN.md section 5, C18',
 }
 
